@@ -655,3 +655,58 @@ def check_assumption_free(run, rule='R11e'):
             elif is_sympy:
                 run.holds(rule, f.key, 'sympy call ' + src(c, 40), 'no forced assumptions', f=f, node=c, nontrivial=False)
     return n
+
+
+# ---------------------------------------------------------------------------------------------------------------- R11v
+def check_vectorize_kernels(run, rule='R11v'):
+    """`np.vectorize(f)` without `otypes` takes the dtype of the WHOLE output array from the result of the first element.  A kernel
+    applied to the elements of a symbolic value (SymPy objects mixed with plain numbers) therefore has to return one kind on every
+    path that can run while SymPy is available: if the SymPy route `sympy.<fn>(x)` is taken for some elements and the raw element is
+    handed back for others, an array whose first element is a plain float is given a float dtype and the symbolic elements raise
+    TypeError (or are truncated).  Decided per kernel: every value return is a SymPy call, or is reached only under the fact that
+    SymPy is not available."""
+    from ..scope import FuncInfo
+    from ..cfg import CFG, must_facts
+    from ..callgraph import own_walk
+    prog = run.prog
+    n = 0
+    for f in prog.analysed_functions():
+        fi = None
+        for c in own_walk(f.node):
+            if not (isinstance(c, ast.Call) and c.args and not any(k.arg == 'otypes' for k in c.keywords)):
+                continue
+            fi = fi or FuncInfo.of(f)
+            t = fi.resolve(c.func)
+            if not (t.kind == 'external' and str(t.obj).endswith('vectorize')):
+                continue
+            kt = fi.resolve(c.args[0])
+            k = kt.obj if kt.kind == 'func' and isinstance(kt.obj, Function) else None
+            if k is None:
+                continue
+            n += 1
+            ki = FuncInfo.of(k)
+            cfg = CFG(k.node)
+            facts = must_facts(cfg)
+            reach = cfg.reachable()
+            kinds = []
+            for r in own_walk(k.node):
+                if not (isinstance(r, ast.Return) and r.value is not None):
+                    continue
+                node = cfg.node_of(r)
+                if node is None or node.id not in reach:
+                    continue
+                v = r.value
+                sym_call = isinstance(v, ast.Call) and ki.resolve(v.func).kind == 'external' and str(ki.resolve(v.func).obj).startswith('sympy')
+                no_sympy = any((not fc[1]) and isinstance(fc[2].ast, ast.Name) and fc[2].ast.id == '_symbolics' for fc in facts.get(node.id, frozenset()))
+                kinds.append((r, 'sympy' if sym_call else ('nosympy' if no_sympy else 'other')))
+            other = [r for (r, kd) in kinds if kd == 'other']
+            symr = [r for (r, kd) in kinds if kd == 'sympy']
+            construct = 'vectorize(%s) result kinds' % k.name
+            if symr and other:
+                run.violation(rule, f.key, construct, 'np.vectorize(%s) has no otypes: the dtype of the whole result comes from the first element, but %s '
+                              'returns a SymPy value on one path (line %d) and `%s` on another (line %d) while SymPy is available: a symbolic matrix whose '
+                              'first entry takes the second path is given a numeric dtype and its symbolic entries raise TypeError'
+                              % (k.name, k.name, symr[0].lineno, src(other[0].value, 30), other[0].lineno), f=f, node=c)
+            else:
+                run.holds(rule, f.key, construct, 'every return reachable with SymPy available is a SymPy call', f=f, node=c)
+    return n
